@@ -41,11 +41,11 @@ type World struct {
 	Errors    []string
 }
 
-var importRe = regexp.MustCompile(`\b(io|math|big|bufio|time|reflect|bytes|strings|utf8|strconv|fmt|sort)\.[A-Z]`)
+var importRe = regexp.MustCompile(`\b(io|math|big|bufio|time|reflect|bytes|strings|utf8|strconv|fmt|sort|ion)\.[A-Z]`)
 
 var importPaths = map[string]string{
 	"io": `"io"`, "math": `"math"`, "big": `"math/big"`, "bufio": `"bufio"`, "time": `"time"`, "reflect": `"reflect"`,
-	"bytes": `"bytes"`, "strings": `"strings"`, "utf8": `"unicode/utf8"`, "strconv": `"strconv"`, "fmt": `"fmt"`, "sort": `"sort"`,
+	"ion": `"github.com/amzn/ion-go/ion"`, "bytes": `"bytes"`, "strings": `"strings"`, "utf8": `"unicode/utf8"`, "strconv": `"strconv"`, "fmt": `"fmt"`, "sort": `"sort"`,
 }
 
 const (
@@ -104,6 +104,7 @@ func Load(repo string, extraOverlay map[string][]byte) (*World, error) {
 				for _, b := range cl.Binder {
 					texts = append(texts, b.Type)
 				}
+				texts = append(texts, cl.CalleeTypes...)
 			}
 		}
 		impSet := map[string]bool{}
